@@ -209,10 +209,49 @@ def built_class():
     return _BUILT[0]
 
 
+_ALIAS_CLASSES = {}
+
+
+def alias_class(flavour, aliases):
+    """Alias-enabled class (AliasMixin in front of the container / model / linker base) declaring `ALIASES`."""
+    from fsic.extensions.common import AliasMixin
+    key = (flavour, tuple(map(tuple, aliases)))
+    if key not in _ALIAS_CLASSES:
+        ns = {'ALIASES': dict((k, v) for k, v in aliases)}
+        if flavour == 'acontainer':
+            base = VectorContainer
+        else:
+            base = fsic.BaseModel if flavour == 'amodel' else fsic.BaseLinker
+            ns.update(ENDOGENOUS=['Y'], NAMES=['Y', 'C', 'I'], CHECK=['Y'])
+            if flavour == 'amodel':
+                ns.update(EXOGENOUS=['C', 'I'])
+        _ALIAS_CLASSES[key] = type('Aliased_' + flavour, (AliasMixin, base), ns)
+    return _ALIAS_CLASSES[key]
+
+
+def resolve_alias(aliases, name, _depth=0):
+    """The variable an alias stands for: follow the declared ALIASES (a chain X -> Y -> Z ends at Z).  Written
+    from the mixin's documentation, independent of its code."""
+    d = dict((k, v) for k, v in aliases)
+    seen = set()
+    while name in d and name not in seen and d[name] != name:
+        seen.add(name)
+        name = d[name]
+    return name
+
+
 def build_object(case):
     span = make_span(case['span'])
     fl = case['flavour']
     strict = bool(case.get('strict'))
+    if fl in ('acontainer', 'amodel'):
+        return alias_class(fl, case['aliases'])(span, strict=strict), 0, 0
+    if fl == 'alinker':
+        subs = {'m1': _M(span)}
+        obj = alias_class(fl, case['aliases'])(subs)
+        if strict:
+            obj.strict = True
+        return obj, sum(m.size for m in subs.values()), sum(m.nbytes for m in subs.values())
     if fl == 'container':
         return VectorContainer(span, strict=strict), 0, 0
     if fl == 'model':
@@ -504,7 +543,7 @@ def run_segments(case, observer=None):
             if observer:
                 observer(obj, item, None, 'ok', None, decl)
             continue
-        alts = (closest(item['name'], decl) if item['op'] == 'setAttr' else
+        alts = (closest(resolve_alias(case.get('aliases', []), item['name']), decl) if item['op'] == 'setAttr' else
                 closest('values', decl) if item['op'] == 'setValues' else
                 closest('strict', decl) if item['op'] == 'setStrict' else None)
         before = snapshot(obj) if observer else None
@@ -521,7 +560,8 @@ def run_segments(case, observer=None):
             observer(obj, item, before, out, exc, decl)
     for seg in segments:
         seg['line'] = (None if seg['store'] is None else
-                       'hist\t' + json.dumps({'store': seg['store'], 'ops': seg['items']}))
+                       'hist\t' + json.dumps({'store': seg['store'], 'ops': seg['items'],
+                                               'aliases': [list(p) for p in case.get('aliases', [])]}))
     return segments, obj
 
 
